@@ -361,6 +361,8 @@ def sweep_sentences(rng):
         add("data", g.sdef({"dists": [1, 2]}))
         add("data", g.tally({"num": rng.choice([1, 2, 4, 6, 7, 8]) + 10 * rng.randint(0, 9), "cells": [1, 2, 3]}))
         add("data", g.material({"num": rng.randint(1, 99)}))
+    for letter in G.ALL_LIB_LETTERS:
+        add("data", g.material({"num": rng.randint(1, 99), "lib_letter": letter}), rng.choice(["0", "1"]))
     for _ in range(4):
         add("data", g.fm({"num": 4}))
         add("data", g.fs({"num": 4, "surfs": [1, 2, 3]}))
